@@ -330,7 +330,9 @@ def wide_shots_case(case):
         return {"ok": False, "msg": "empirical distribution of %d-bit shots" % w, "sig": "wide:distribution"}
     k = 3
     for qs in ([0], [w - 1], [w - 2], [63] if w > 63 else [w // 2], [64] if w > 64 else [1], [0, w - 1], [w - 2, w - 1], list(range(w))):
-        exp = rs.mean([F(rs.eig(s, qs)) for s in shots])
+        if any(not 0 <= q < w for q in qs) or len(set(qs)) != len(qs):
+            continue
+        exp = sum(F(rs.eig(o, qs)) * mlt for o, mlt in zip(outcomes, case["mult"])) / N      # = the sample mean over all shots, outcome by outcome
         k += 2
         if abs(get_expectation_value_from_frequencies(qs, dict(counts)) - float(exp)) > TOL:
             return {"ok": False, "msg": "expectation from frequencies on qubits %s of %d" % (qs, w), "sig": "wide:frequencies"}
@@ -375,7 +377,11 @@ def run(run):
     for w in ((8, 31, 32, 33, 63, 64, 65, 70, 128, 130) if thorough else (33, 63, 64, 65, 70, 130)):
         ws += [{"w": w, "ones": [[w - 1], [w - 2], [0], [0, w - 1]], "mult": [1, 2, 3, 1]}, {"w": w, "ones": [[], [w - 1]], "mult": [2, 1]}, {"w": w, "ones": [[1, w - 1], [1], [w - 1], [1, w - 2]], "mult": [1, 1, 2, 1]},
                {"w": w, "ones": [list(range(w)), list(range(w - 1)), list(range(1, w))], "mult": [1, 1, 1]}]
-    secs.append(Section("wide_shots", ws, wide_shots_case, desc="bitstrings of 33..130 bits (wider than a machine word): outcomes that differ only in the highest positions"))
+    # many shots: multiplicities beyond 255, 65 535 and 10^5 (a counter, an index or a vectorised path of limited width), with single rare shots among them
+    for w, ones, mult in ((2, [[0], [1], [0, 1], []], [256, 300, 1, 65536]), (3, [[0, 2], [1], []], [70000, 65535, 1]), (5, [[4], [0, 4], [1, 2, 3]], [100001, 2, 255]), (1, [[0], []], [65537, 65536]),
+                          (4, [[q_] for q_ in range(4)] + [[]], [257, 258, 259, 260, 131072])):
+        ws.append({"w": w, "ones": ones, "mult": mult})
+    secs.append(Section("wide_shots", ws, wide_shots_case, desc="bitstrings of 33..130 bits (wider than a machine word): outcomes that differ only in the highest positions; sample sets of 66 000 - 232 000 shots with multiplicities around 2^8, 2^16, 10^5"))
     D = 4 if thorough else 3
     hs = [{"hist": [EVENTS[i] for i in combo]} for d in range(0, D + 1) for combo in itertools.product(range(len(EVENTS)), repeat=d)]
     secs.append(Section("histories", hs, history_case, desc="every history of <=%d events (query / replace / in-place edit / add_counts / append / pop) on one Measurements object; "
